@@ -87,6 +87,11 @@ KERNELS = {
              '<= 2 payload bytes (quick: two smaller shapes) must produce exactly what a plain rescan of the chunk from that state produces: output = input minus hints, no magic byte in the output, one callback per hint at the output position of the '
              'first byte after it and with that hint\'s payload, n = bytes consumed, line/column afterwards. Rescanning is compositional, so the step covers all streams and chunkings (that do not split a hint) built from such chunks; explicit '
              'chunkings of small streams and the ReadHint/WriteTo round trip for all payloads are checked as well. Hint.Unpack (gob) and FileSet.Position are stubbed.', 'DESIGN.md §4 C19'),
+ 'C20': kern('build/cache (Store, Load, serialize, deserialize, isTestPackage, packageKey, commonKey, cachedPath) executed symbolically from the current source against a fake file system, gzip and gob layer whose every operation may fail '
+             '(fault schedule = symbolic booleans: mkdir, createtemp, encode, gzip flush, rename, open, gzip header, build-time decode, payload decode, closing checksum) and with symbolic store / source-modification instants: a hit is reported only if '
+             'every read step succeeded, the entry is not older than the sources (real time.Time.After on symbolic instants), the payload is returned unchanged and is not decoded before the staleness test; Store writes the final path only by '
+             'renaming a completely written temporary file and leaves nothing under the final name on failure; the package under test and its _test twin are never stored or loaded; two configurations / import paths share a cache file '
+             'only if equal field by field (sha256 assumed collision-free).', 'DESIGN.md §4 C20'),
 }
 NA_DEFAULT = 'check not built yet in this session (work in progress; see DESIGN.md §8)'
 NA = {}
